@@ -7,7 +7,7 @@
    listed class). *)
 From Coq Require Import QArith.
 From GJ Require Import Base Kernel KernelSpec KernelProofs IntersectsProofs Series SeriesSpec
-  Ring RingSpec PipProofs PairProofs Jordan JordanQ JordanGP Convex.
+  Ring RingSpec PipProofs PairProofs Jordan JordanQ JordanGP Convex LineSound LineComplete.
 Open Scope Z_scope.
 
 (* X contains a point: point membership (for a single point covering = meeting) *)
@@ -128,6 +128,25 @@ Example C03_strict_example :
   rcs (RS {| closed := true; pts := ps |}) ((1,5), (5,1)) false = false.
 Proof. vm_compute. repeat split. Qed.
 
+(* Line.ContainsLine is exact as a point-set statement: the coverage walk accepts the argument exactly
+   when every rational point of every segment of the argument lies on a segment of the receiver
+   (soundness: the walk's invariant; completeness: a counting argument - beyond the current point
+   there are more rational points than receiver segments, a segment not collinear with the covered
+   one carries at most one of them, a collinear one that carries any reaches back to the current
+   point and beyond it) *)
+Theorem C03_line_contains_line_pointset : forall l o, ring_empty l = false -> ring_empty o = false ->
+  (line_contains_line l o = Some true <-> line_covered_by l o).
+Proof. exact line_contains_line_exact. Qed.
+(* ... and Line.ContainsRect for a flat rectangle, the only kind a line string can contain *)
+Theorem C03_line_contains_flat_rect_pointset : forall l mn mx, ring_empty l = false ->
+  px mn = px mx \/ py mn = py mx ->
+  (line_contains_rect l (mn, mx) = Some true <-> forall k P, 0 < k -> on_seg (sc k mn, sc k mx) P -> covered l k P).
+Proof. exact line_contains_flat_rect_exact. Qed.
+Example C03_line_examples :
+  line_contains_line (Lr [(0,0);(4,0);(4,4);(9,4)]) (Lr [(2,0);(4,0);(4,3)]) = Some true /\
+  line_contains_line (Lr [(0,0);(4,0);(4,4);(9,4)]) (Lr [(2,0);(5,0)]) = Some false.
+Proof. split; [exact exact_yes|exact exact_no]. Qed.
+
 Print Assumptions C03_rect_rect.
 Print Assumptions C03_ring_segment_strict_exact.
 Print Assumptions C03_ring_segment_strict_pointset.
@@ -139,3 +158,5 @@ Print Assumptions C03_rect_poly.
 Print Assumptions C03_point_line.
 Print Assumptions C03_ring_ring_vertices.
 Print Assumptions C03_segment_segment.
+Print Assumptions C03_line_contains_line_pointset.
+Print Assumptions C03_line_contains_flat_rect_pointset.
